@@ -124,6 +124,12 @@ func (wg *WeightedAuthorizationModelGraph) HasEdge(fromNode, toNode *WeightedAut
 
 // AssignWeights assigns weights to all the edges and nodes of the graph.
 func (wg *WeightedAuthorizationModelGraph) AssignWeights() error {
+	// A cycle that can be traversed without any tuple (rewrite and computed edges only) is a model cycle,
+	// wherever the traversal below happens to start.
+	if wg.hasRewriteOnlyCycle() {
+		return ErrModelCycle
+	}
+
 	visited := make(map[string]bool)
 	ancestorPath := make([]*WeightedAuthorizationModelEdge, 0)
 	tupleCycleDependencies := make(map[string][]*WeightedAuthorizationModelEdge)
@@ -141,6 +147,75 @@ func (wg *WeightedAuthorizationModelGraph) AssignWeights() error {
 			return fmt.Errorf("%w: %d tuple cycles found without resolution", ErrTupleCycle, len(tupleCyles))
 		}
 	}
+
+	return wg.checkAllNodesHaveWeights()
+}
+
+// hasRewriteOnlyCycle reports whether some cycle consists of rewrite and computed edges only.
+func (wg *WeightedAuthorizationModelGraph) hasRewriteOnlyCycle() bool {
+	const (
+		inProgress = 1
+		done       = 2
+	)
+
+	state := make(map[string]int, len(wg.nodes))
+
+	var visit func(nodeID string) bool
+
+	visit = func(nodeID string) bool {
+		state[nodeID] = inProgress
+
+		for _, edge := range wg.edges[nodeID] {
+			if edge.edgeType != RewriteEdge && edge.edgeType != ComputedEdge {
+				continue
+			}
+
+			switch state[edge.to.uniqueLabel] {
+			case inProgress:
+				return true
+			case done:
+				continue
+			}
+
+			if visit(edge.to.uniqueLabel) {
+				return true
+			}
+		}
+
+		state[nodeID] = done
+
+		return false
+	}
+
+	for nodeID := range wg.nodes {
+		if state[nodeID] == 0 && visit(nodeID) {
+			return true
+		}
+	}
+
+	return false
+}
+
+// checkAllNodesHaveWeights rejects a graph in which a relation or an operator reaches no terminal type.
+func (wg *WeightedAuthorizationModelGraph) checkAllNodesHaveWeights() error {
+	nodeIDs := make([]string, 0, len(wg.nodes))
+	for nodeID := range wg.nodes {
+		nodeIDs = append(nodeIDs, nodeID)
+	}
+
+	slices.Sort(nodeIDs)
+
+	for _, nodeID := range nodeIDs {
+		node := wg.nodes[nodeID]
+		if node.nodeType != SpecificTypeAndRelation && node.nodeType != OperatorNode {
+			continue
+		}
+
+		if len(node.weights) == 0 {
+			return fmt.Errorf("%w: %s node does not have any terminal type to reach to", ErrInvalidModel, node.uniqueLabel)
+		}
+	}
+
 	return nil
 }
 
